@@ -3,7 +3,7 @@ CONSTANTS MaxPages = 5
  EndAt = "data"
  Lens = {1,2,4}
  Chunk = 4
- Read = 2
+ Reads = {1, 2, 8}
  BackUpRule = "begin"
  HandOver = "refetch"
 INVARIANT Terminates
